@@ -13,3 +13,22 @@ func init() {
 		Assumes:   []string{"gorilla/mux routing, net/http, encoding/json and enmime are models/stubs: handlers are called with the route variables already extracted; JSON values are compared before encoding (natively: after decoding the real JSON)", "memory back-end only; base-path prefixing and URL-significant characters through the router are outside the claim"},
 	})
 }
+
+func init() {
+	register(Harness{
+		Prop: "C14", Pkg: "rest/client", Func: "VerifC14Client",
+		InitAbs:  []string{"vendor/golang.org/x/net/http/httpguts"},
+		Quick:    grid(rng(0, 5)),
+		Thorough: grid(rng(0, 5)),
+		Unwind:   80,
+		Desc:     "every operation of the bundled Go client, executed with the real net/url and net/http request construction (from their SSA), against a capturing transport: method, decoded path /api/v1/mailbox/<name>[/<id>[/source]] and — for mark-seen — presence of the JSON body the handler requires",
+		Bounds:   "param (client operation); mailbox name from a menu of 9 names with URL-significant characters (symbolic selector); the escaping itself is checked for all ASCII names of <= 3 (6) bytes by VerifC14Escape",
+		Assumes:  []string{"the route table (method, path template, body requirement) is read from rest/routes.go and apiv1_controller.go; gorilla/mux matching itself is not executed"},
+	}, Harness{
+		Prop: "C14", Pkg: "rest/client", Func: "VerifC14Escape",
+		Quick:    grid(rng(0, 3)),
+		Thorough: grid(rng(0, 6)),
+		Desc:     "url.QueryEscape(name) contains no path separators and PathUnescape gives the name back",
+		Bounds:   "param (name length); ASCII names without space",
+	})
+}
